@@ -135,7 +135,7 @@ func Families(tier string) []Family {
 			toks       []Tok
 		}
 		for _, m := range []mk{
-			{"multi-ss", "sslice", Ts("--l", "--l=v", "v", "w", "--b", "--", "-", "cmd", "-x", "")},
+			{"multi-ss", "sslice", Ts("--l", "--l=v", "v", "w", "--b", "--", "-", "cmd", "-x", "", "-lb", "-bl")}, // bundles: a letter still taking values looks ahead at the next bundle
 			{"multi-is", "islice", Ts("--l", "--l=1", "--l=1..3", "1", "2", "1.5", "1..3", "3..1", "x", "--b", "--", "99999999999999999999", "010")},
 			{"multi-fs", "fslice", Ts("--l", "--l=0.1", "--l=x", "1.5", "2", "1e-320", "x", "--b", "--")},
 			{"multi-sm", "smap", Ts("--l", "--l=k=v", "k=v", "k=w=z", "K=v", "j=1", "x", "--b", "--")},
@@ -338,6 +338,17 @@ func Families(tier string) []Family {
 			y := opt("incr", "y", 1, "yy")
 			c.Opts = []OptCfg{opt("sopt", "o", 1, "p"), opt("bool", "b", 1, "bb"), opt("bool", "x", 1), y, multi("sslice", "l", 1, 1, 2, "ll")}
 			f.Defs = append(f.Defs, Def{Cfg: c, Tokens: Ts("-ob", "-pb", "-xy", "-xyy", "-lb", "-bl", "one", "-b", "--bb"), L: lim(tier, 3, 4)})
+		}
+		// a wrapper (UnsetOptions) declares options under the very names and aliases the top level uses: each level's
+		// spellings mean that level's options, also when the same spelling was given before the command token
+		for mode := 0; mode < 2; mode++ {
+			c := Cfg{Mode: mode}
+			c.Nodes = []NodeCfg{rootNode(0, false), cmdNode("w", 1, 0, false, true), cmdNode("s", 2, 0, false, true)}
+			c.Nodes[1].Unset = true
+			wl := opt("string", "level", 2, "l")
+			wl.DefT = T("7")
+			c.Opts = []OptCfg{opt("string", "level", 1, "l"), opt("bool", "verbose", 1, "v"), wl, opt("bool", "version", 2, "v")}
+			f.Defs = append(f.Defs, Def{Cfg: c, Tokens: Ts("-l", "1", "--level=2", "-v", "--ver", "w", "s", "x"), L: lim(tier, 4, 5)})
 		}
 		// Called / CalledAs through the environment: only true/false (any case) count for a bool
 		for _, ev := range []string{"1", "t", "True", "0", "FALSE", "yes"} {
